@@ -154,7 +154,7 @@ func firstJSONDiffKind(a, b string) string {
 // c20Encode: purity and determinism of plain encoding.
 func c20Encode(k *core.Case, m *abs.Msg) {
 	k.Eval(1)
-	lm, err := bridge.BuildMsg(m)
+	lm, err := buildMsgObject(m) // an object with a history (decoded before, header parsed elsewhere, encoded before, ...)
 	if err != nil {
 		return
 	}
